@@ -20,6 +20,7 @@ var kvPrefixOf = map[string]string{
 	"Collector.GetCollectorLookupTable": "01", "Collector.GetCollectorLookupTableByApp": "01", "Collector.GetAllCollectorLookupTable": "01",
 	"Collector.GetAuctionMappingForApp": "05", "Collector.GetAllAuctionMappingForApp": "05",
 	"Collector.GetAppToDenomsMapping": "07", "Collector.GetAllAppToDenomsMapping": "07",
+	"Esm.GetSnapshotOfPrices": "10", "Esm.GetAssetToAmount": "11", "Esm.GetAllAssetToAmount": "11",
 	"Lend.GetFundModBalByAssetPool":          "51",
 	"LiquidationV2.GetLockedVaultID":         "03",
 	"LiquidationV2.GetAppReserveFundsTxData": "07",
